@@ -2,13 +2,14 @@
    W_forest st: every node has at most one parent and at most two children, every edge leads
    from an earlier to a strictly later time point.  W_dict st: the graph dictionaries are
    well formed.  (Definitions in Proofs/EditInv.v.)
-   PROVED here: UserDeleteEdge and UserAddEdge (all branches, forced variants included),
-   the relabel step UpdateTrackIDs, and the refusal clauses of UserAddEdge.
+   PROVED here: UserDeleteEdge, UserAddEdge (all branches, forced variants included),
+   UserSwapPredecessors, the relabel step UpdateTrackIDs, and the refusal clauses of
+   UserAddEdge and UserSwapPredecessors.
    NOT YET PROVED as theorems (decided by the differential correspondence and the forest
-   oracle only): UserAddNode, UserDeleteNode, UserSwapPredecessors, the paint action,
-   undo / redo.  See DESIGN.md section 9 (C03). *)
+   oracle only): UserAddNode, UserDeleteNode, the paint action, undo / redo.  See DESIGN.md section 9 (C03). *)
 From Coq Require Import ZArith List Bool.
 From FT Require Import Base.Dict Model.Edit Model.EditExec Proofs.EditInv Proofs.EditWalk Proofs.EditUserEdge Proofs.EditUserEdgeCor.
+From FT Require Proofs.EditSwap.
 Import ListNotations.
 Open Scope Z_scope.
 
@@ -47,6 +48,21 @@ Theorem C03_update_track_ids : forall st start newT newL, W_dict st -> W_forest 
                 (forall a c, edge st' a c <-> edge st a c).
 Proof. exact upd_track_keeps_forest. Qed.
 
+
+(* UserSwapPredecessors: an accepted swap keeps the forest; exactly the parents of the two nodes
+   are exchanged *)
+Theorem C03_swap : forall st n1 n2 a st', W_dict st -> W_forest st ->
+  user_swap st n1 n2 = Ok a st' ->
+  W_dict st' /\ W_forest st' /\
+  (forall x y, edge st' x y <-> (edge st x y /\ y <> n1 /\ y <> n2) \/ (edge st x n1 /\ y = n2) \/ (edge st x n2 /\ y = n1)).
+Proof. exact EditSwap.swap_keeps_forest. Qed.
+
+(* it is accepted exactly when its own checks pass: none of the four nested edits can be refused
+   afterwards *)
+Theorem C03_swap_accepted_iff : forall st n1 n2, W_dict st -> W_forest st ->
+  (EditSwap.swap_refused st n1 n2 = None <-> exists a st', user_swap st n1 n2 = Ok a st').
+Proof. exact EditSwap.swap_accepted_iff. Qed.
+
 (* non-vacuity: the fixture forest (division 1->2, 1->3; skip edge 3->5; isolated 6) *)
 Definition fx_node (i t k l : Z) : Z * attrs := (i, [(KTime, VZ t); (KPos, VTok i); (KTrack, VZ k); (KLin, VZ l)]).
 Definition fx_feats : feats := {| reg_node := [KTime; KPos; KTrack; KLin]; reg_edge := []; pos_keys := [KPos]; rp_all := []; rp_act := [];
@@ -71,3 +87,5 @@ Print Assumptions C03_delete_edge.
 Print Assumptions C03_add_edge.
 Print Assumptions C03_add_edge_refusals.
 Print Assumptions C03_update_track_ids.
+Print Assumptions C03_swap.
+Print Assumptions C03_swap_accepted_iff.
